@@ -1087,6 +1087,12 @@ func (bh *blipHandler) processRev(rq *blip.Message, stats *processRevStats) (err
 
 	stats.bytes.Add(int64(len(bodyBytes)))
 
+	// The body is stored and later spliced as received: it has to be exactly one JSON value
+	// (Body.Unmarshal decodes the first value and never looks at what follows it)
+	if !json.Valid(bodyBytes) {
+		return base.HTTPErrorf(http.StatusBadRequest, "Invalid JSON in revision body")
+	}
+
 	if bh.BlipSyncContext.purgeOnRemoval && bytes.Contains(bodyBytes, []byte(`"`+BodyRemoved+`":`)) {
 		var body Body
 		if err := body.Unmarshal(bodyBytes); err != nil {
